@@ -115,6 +115,9 @@ func (e *esdtNFTupdate) ProcessBuiltinFunction(
 	if err != nil {
 		return nil, err
 	}
+	if esdtData.TokenMetaData == nil {
+		return nil, ErrNFTDoesNotHaveMetadata
+	}
 
 	esdtData.TokenMetaData.Attributes = vmInput.Arguments[2]
 
